@@ -320,6 +320,9 @@ syn_req!(body, PUT, AppserviceTokenOptional, { 1.1 => "/_syn/b", }, {
 syn_req!(newtype_body, POST, ServerSignatures, { 1.1 => "/_syn/nb", }, {
     #[ruma_api(body)] nb: Two,
 });
+syn_req!(newtype_body_nullable, POST, None, { 1.1 => "/_syn/nbn", }, {
+    #[ruma_api(body)] nbn: Option<Vec<String>>,
+});
 syn_req!(raw_body, PUT, None, { 1.1 => "/_syn/rb/:p1", }, {
     #[ruma_api(path)] p1: String,
     #[ruma_api(header = CONTENT_TYPE)] h: String,
@@ -410,6 +413,7 @@ fn syn_endpoints() -> Vec<Ep> {
         header::ep(),
         body::ep(),
         newtype_body::ep(),
+        newtype_body_nullable::ep(),
         raw_body::ep(),
         mixed::ep(),
         resp_body::ep(),
